@@ -11,7 +11,10 @@ from hypothesis import strategies as st
 from . import common, model as M, refcodec as rc, sim
 
 NAME_POOL = ['A', 'b', 'Tag', 'SCADA', 'scada_2', 'Motor.Speed', 'Motor.Torque', 'x.y.z', 'Caf\xe9', '\xd1and\xfa', 'T1', 'T2',
-             'LongTagName_0123456789', 'q', 'Zz', 'odd', 'even', 'T3', 'T4', 'T5', 'T6', 'Pump.On', 'Pump.Off', 'k9']
+             'LongTagName_0123456789', 'q', 'Zz', 'odd', 'even', 'T3', 'T4', 'T5', 'T6', 'Pump.On', 'Pump.Off', 'k9',
+             'Ma\xdf', 'Mass', '\xb5m', 'Stra\xdfe', 'STRASSE']
+# (ISO-8859-1 names are documented as supported with case-insensitive lookup; 'Ma\xdf' / 'Mass' and 'Stra\xdfe' / 'STRASSE' differ in
+#  more than case: lower-casing never maps sharp s to 'ss', so they are different tags)
 CLASSES = [0x93, 0x94, 0xFE, 0x104, 0x3E8, 0xFFFF]
 
 # ------------------------------------------------------------------------------------------------
@@ -114,10 +117,21 @@ def op_strategy(draw, specs, mode):
     if mode == 'edge' and draw(st.integers(0, 11)) == 0:
         # unknown tag / unknown object
         kind = draw(st.sampled_from(['tag', 'object', 'attribute', 'attribute']))
-        op = {'svc': draw(st.sampled_from(['read_tag', 'write_tag', 'get_attr', 'read_frag', 'write_frag', 'gaa', 'gal'])), 'tag': 'NoSuchTag',
+        op = {'svc': draw(st.sampled_from(['read_tag', 'write_tag', 'get_attr', 'read_frag', 'write_frag', 'gaa', 'gal', 'set_attr', 'set_attr'])), 'tag': 'NoSuchTag',
               'form': 'sym', 'case': 0, 'elem': None, 'count': 1, 'type': 'INT', 'values': [1], 'offset': 0,
               'sess': draw(st.integers(0, 1)), 'wrap': True}
-        if kind == 'object' or (op['svc'] in ('gaa', 'gal') and kind != 'tag'):
+        if op['svc'] == 'set_attr':
+            # Set Attribute Single addressed to an object that does not exist, with the attribute number and exactly the payload
+            # size of one of the Message Router's own (auto-allocated) tags
+            autos = [sp for sp in specs if not sp.get('address') and sp['type'] in M.FIXED_TYPES]
+            k = draw(st.integers(1, max(1, len([sp for sp in specs if not sp.get('address')]))))
+            sp = autos[draw(st.integers(0, len(autos) - 1))] if autos else {'type': 'INT', 'length': 1}
+            vals = draw(st.lists(value_of(sp['type']), min_size=sp['length'], max_size=sp['length']))
+            op['unknown_object'] = draw(st.sampled_from([[0x95, 1, k], [0x02, 7, k], [0xFFFE, 300, k]]))
+            op['form'] = 'num'
+            op['values'] = vals
+            op['raw'] = rc.enc_values(sp['type'], vals).hex()
+        elif kind == 'object' or (op['svc'] in ('gaa', 'gal') and kind != 'tag'):
             op['unknown_object'] = draw(st.sampled_from([[0x95, 1, 1], [0x93, 77, 1], [0xFFFE, 300, 1]]))
             op['form'] = 'num'
         elif op['svc'] in ('gaa', 'gal'):
@@ -169,6 +183,9 @@ def op_strategy(draw, specs, mode):
         if t in M.FIXED_TYPES and n > 1 and draw(st.integers(0, 2)) == 0:
             k = draw(st.integers(0, n - 1)) if mode == 'valid' else draw(st.sampled_from([0, 1, n - 1, n, n + 1]))
             op['offset'] = k * rc.tsize(t)
+            if mode == 'edge' and draw(st.integers(0, 5)) == 0:
+                # byte offsets in the upper half of the 32-bit range (a whole number of elements below 2**32)
+                op['offset'] = (2 ** 32 - draw(st.integers(1, 6)) * rc.tsize(t)) if draw(st.booleans()) else 2 ** 31
     if svc in ('write_tag', 'write_frag'):
         rt = draw(st.sampled_from(_request_types_for(t, mode)))
         op['type'] = rt
@@ -181,6 +198,9 @@ def op_strategy(draw, specs, mode):
                     k = draw(st.sampled_from([n, n + 1]))
                 op['offset'] = k * rc.tsize(rt)
                 nvals = max(1, min(700, n - k)) if k < n else 1
+                if mode == 'edge' and draw(st.integers(0, 5)) == 0:
+                    op['offset'] = (2 ** 32 - draw(st.integers(1, 6)) * rc.tsize(rt)) if draw(st.booleans()) else 2 ** 31
+                    nvals = draw(st.integers(1, 2))
                 if nvals > 1:
                     nvals = draw(st.integers(1, nvals))
         nvals = max(1, nvals)
